@@ -38,7 +38,7 @@ impl Property for C18 {
         "C18"
     }
     fn rule(&self) -> &'static str {
-        "profile `flow` with shadowing emphasis, 0-2 virtual signals (so the variable swap around virtual evaluation runs), X/C rows (several items share one evaluation), Z/X device answers in a third of the cases (virtual signals then make rows error items and the caller goes on), a malformed driver answer (an entry dropped or repeated, two entries swapped) to one call in a quarter of the cases (that row is an error item, the caller goes on). Every row statement carries a tag and two 64-bit probe inputs `(v)` for variables v definitely in scope there. The caller inspects vars() after every yielded row. Oracle (self-consistent, no reference values): with D = variables definitely in scope at that source row and P = variables that can be in scope there (lets at the level of an enclosing frame, enclosing counters) by an independent static scope analysis of the generating program: D is a subset of keys(vars()) which is a subset of P (so variables of ended loops, device outputs and virtual signals are absent), and for each probed v, vars()[v] equals the value the crate itself evaluated `(v)` to in that row (the innermost binding). In a third of the cases `let zc = v0;` / `loop(zc, m)` / row / `end loop` / row (v0 in {0, 1, 3}, zc bound nowhere else) is planted at a top-level position: inside that loop vars()[zc] is the number of the pass (strictly increasing over the rows that are seen), and from the row after the loop on vars()[zc] = v0 (known values, so a shadowed binding that is written through is seen). Non-trivial: some inspected row has a shadowed name in scope, or follows an ended loop, or is an expansion item other than the first; distinct by source + signals + driver."
+        "profile `flow` with shadowing emphasis, 0-2 virtual signals (so the variable swap around virtual evaluation runs), X/C rows (several items share one evaluation), Z/X device answers in a third of the cases (virtual signals then make rows error items and the caller goes on), a malformed driver answer (an entry dropped or repeated, two entries swapped) to one call in a quarter of the cases (that row is an error item, the caller goes on). Every row statement carries a tag and two 64-bit probe inputs `(v)` for variables v definitely in scope there. The caller inspects vars() after every yielded row. Oracle (self-consistent, no reference values): with D = variables definitely in scope at that source row and P = variables that can be in scope there (lets at the level of an enclosing frame, enclosing counters) by an independent static scope analysis of the generating program: D is a subset of keys(vars()) which is a subset of P (so variables of ended loops, device outputs and virtual signals are absent), and for each probed v, vars()[v] equals the value the crate itself evaluated `(v)` to in that row (the innermost binding). In a third of the cases `let zc = v0;` / `loop(zc, m)` / row / `end loop` / row (v0 in {0, 1, 3}, zc bound nowhere else) is planted at a top-level position: inside that loop vars()[zc] is the number of the pass (strictly increasing over the rows that are seen), and from the row after the loop on vars()[zc] = v0 (known values, so a shadowed binding that is written through is seen). In another third `let ovq = 11;` / `loop(ocq, 3)` / `while(0)` `let ovq = 5;` `end while` / row P / `let ovq = (ocq + 20);` / row Q / `end loop` / row R is planted: P shows ovq = 11 in the first pass and 19 + j in pass j >= 1 (what a pass binds in the loop's scope lives until the loop ends), Q shows 20 + j, R shows 11 again and no ocq. Non-trivial: some inspected row has a shadowed name in scope, or follows an ended loop, or is an expansion item other than the first; distinct by source + signals + driver."
     }
     fn cases(&self, tier: Tier) -> u64 {
         match tier {
@@ -47,7 +47,7 @@ impl Property for C18 {
         }
     }
     fn required_classes(&self) -> Vec<&'static str> {
-        vec!["shadowed-name-in-scope", "row-after-loop-end", "expansion-item>0", "declare", "var-named-like-output", "vars-after-error-item", "vars-after-malformed-answer", "probe-checked", "row-in-loop", "planted-shadowing-loop-checked", "planted-shadowed-binding-checked"]
+        vec!["shadowed-name-in-scope", "row-after-loop-end", "expansion-item>0", "declare", "var-named-like-output", "vars-after-error-item", "vars-after-malformed-answer", "probe-checked", "row-in-loop", "planted-shadowing-loop-checked", "planted-shadowed-binding-checked", "planted-accumulator-checked"]
     }
     fn run(&self, s: &Streams) -> CaseOut {
         let mut out = CaseOut::new();
@@ -79,6 +79,34 @@ impl Property for C18 {
             }
             planted = Some((id_in, id_after, v0));
             planted_m = m as i64;
+        }
+        // In another third a second construct with known values (`ovq`, `ocq` are bound nowhere else):
+        //   let ovq = 11;
+        //   loop(ocq, 3)
+        //     while(0) / let ovq = 5; / end while      (never runs; `while` opens no scope)
+        //     row P        pass 0: ovq = 11 (the outer binding); pass j >= 1: ovq = 19 + j (bound by the pass before:
+        //     let ovq = (ocq + 20);                     what a loop body binds lives until the LOOP ends)
+        //     row Q        ovq = 20 + j
+        //   end loop
+        //   row R          ovq = 11 again, ocq gone
+        let mut planted2: Option<(usize, usize, usize)> = None;
+        if planted.is_none() && lch.chance(1, 2) {
+            let (id_p, id_q, id_r) = (built.prog.row_count(), built.prog.row_count() + 1, built.prog.row_count() + 2);
+            let lit_row = |cols: &[Col]| -> Vec<Entry> {
+                cols.iter().map(|c| if c.role == ColRole::ExpectedOnly { Entry::X(true) } else { Entry::Num(0, Radix::Dec) }).collect()
+            };
+            let at = lch.upto(built.prog.stmts.len() + 1);
+            let body = vec![
+                Stmt::While(Expr::lit(0), vec![Stmt::Let("ovq".into(), Expr::lit(5))]),
+                Stmt::Row(id_p, lit_row(&built.cols)),
+                Stmt::Let("ovq".into(), Expr::Group(Box::new(Expr::bin(BinOp::Add, Expr::var("ocq"), Expr::lit(20))))),
+                Stmt::Row(id_q, lit_row(&built.cols)),
+            ];
+            let new = vec![Stmt::Let("ovq".into(), Expr::lit(11)), Stmt::Loop("ocq".into(), Expr::lit(3), body), Stmt::Row(id_r, lit_row(&built.cols))];
+            for (k, st) in new.into_iter().enumerate() {
+                built.prog.stmts.insert(at + k, st);
+            }
+            planted2 = Some((id_p, id_q, id_r));
         }
         let scopes = instrument(&mut built, &mut lch, 2, ProbePref::Vars, &[]);
         let text = built_text(&built);
@@ -180,6 +208,43 @@ impl Property for C18 {
                         out.fail(
                             "c18:shadowed-binding-not-restored",
                             format!("after item {i} (source row #{rid}, after the planted `let zc = {v0}; loop(zc, ..) .. end loop`): vars()[zc] = {:?}; the loop has ended, the binding it shadowed is visible again with its own value {v0}", vars.get("zc")),
+                        );
+                        return out;
+                    }
+                }
+            }
+            if let Some((id_p, id_q, id_r)) = planted2 {
+                let rid = (tag - 1) as usize;
+                let (ov, oc) = (vars.get("ovq").copied(), vars.get("ocq").copied());
+                let want: Option<(Option<i64>, &str)> = if rid == id_p || rid == id_q {
+                    match oc {
+                        Some(j) if (0..3).contains(&j) => Some(if rid == id_q {
+                            (Some(20 + j), "the `let ovq = (ocq + 20);` right above it has just run")
+                        } else if j == 0 {
+                            (Some(11), "first pass, the `let` of the body has not run yet (the one inside `while(0)` never does): the outer binding is in scope")
+                        } else {
+                            (Some(19 + j), "a later pass: what the pass before bound in the loop's scope is still there - it disappears when the loop ends, not when a pass ends")
+                        }),
+                        _ => {
+                            out.fail("c18:planted-accumulator", format!("after item {i} (a row inside the planted `loop(ocq, 3)`): vars()[ocq] = {oc:?}, must be the number of the pass (0..2)"));
+                            return out;
+                        }
+                    }
+                } else if rid == id_r {
+                    if oc.is_some() {
+                        out.fail("c18:planted-accumulator", format!("after item {i} (the row after the planted `loop(ocq, 3)`): vars() still lists the counter ocq = {oc:?}"));
+                        return out;
+                    }
+                    Some((Some(11), "the loop has ended: the binding `let ovq = 11;` that the loop's own `let ovq` shadowed is visible again, untouched"))
+                } else {
+                    None
+                };
+                if let Some((w, why)) = want {
+                    out.class("planted-accumulator-checked");
+                    if ov != w {
+                        out.fail(
+                            "c18:planted-accumulator",
+                            format!("after item {i} (source row #{rid} of the planted `let ovq = 11; loop(ocq, 3) while(0) let ovq = 5; end while / row / let ovq = (ocq + 20); / row / end loop / row`, ocq = {oc:?}): vars()[ovq] = {ov:?}, must be {w:?} - {why}"),
                         );
                         return out;
                     }
